@@ -572,6 +572,7 @@ class FileWeaver:
         # parameter list
         j = next_sig(toks, it.kw + 1)          # name
         j = next_sig(toks, j + 1)
+        has_generics = toks[j].text == "<"
         if toks[j].text == "<":                # generics
             depth = 0
             while True:
@@ -650,7 +651,7 @@ class FileWeaver:
                 raise WeaveError("ret: given but %s has no return type" % key)
         if spec and spec.genpost:
             self.gen_post(spec, owner, j, pclose, it)
-        if spec and mode != "external":
+        if spec and mode != "external" and not has_generics:
             self.gen_vacuity(spec, owner, j, pclose, key)
         # contract clauses
         if spec and (spec.requires or spec.ensures or spec.decreases or spec.opens_invariants):
